@@ -11,8 +11,8 @@ from harness.framework import Suite
 
 PID = "C19"
 LEAN_MODS = ["SwcVerif.Props.C19", "SwcVerif.Props.C19Gen"]
-TRANSLATE_ALGO = ["AlgoPopulation"]    # Gen/AlgoPopulation.lean is regenerated from swcgeom/core/population.py on every run
-DRIVER_FILES = ["SwcVerif/Model/AlgoRunPopulation.lean"]
+TRANSLATE_ALGO = ["AlgoPopulation", "AlgoPopFront"]    # Gen/AlgoPopulation.lean, Gen/AlgoPopFront.lean are regenerated from swcgeom/core/population.py on every run
+DRIVER_FILES = ["SwcVerif/Model/AlgoRunPopulation.lean", "SwcVerif/Model/AlgoRunPopFront.lean"]
 THEOREMS = [
     "C19.getIdx_spec", "C19.step_len", "C19.load_at_most_once", "C19.loads_only_on_demand", "C19.log_monotone", "C19.get_returns",
     "C19.iter_returns", "C19.cumsum_spec", "C19.chain_len", "C19.chain_index", "C19.chain_index_neg", "C19.nest_index",
@@ -235,7 +235,27 @@ class LazySuite(Suite):
             exp = [f"[{case['n']}]"]
         want = " ".join(exp) + " / " + ",".join(str(pos[m]) for m in res["log"] if m < OTHER)
         # the hand-written state machine AND the methods generated from population.py on this run (translator cross-check)
-        return [(line, want), ("g" + line, want)]
+        out = [(line, want), ("g" + line, want)]
+        if case["pop"]:
+            # … and the FRONT END as generated (Population.__init__ / __getitem__ with ints and slices / __len__ / __iter__, NestTrees over the lazy
+            # container): every operation of the script, slices included (`s:a:b:c:k` answers `[len(slice);file of slice[k]]`)
+            ftoks, fexp = [], []
+            for op, r in zip(case["ops"], res["res"]):
+                if op[0] in ("o", "O"):
+                    continue
+                if op[0] == "s":
+                    ftoks.append("s:" + ":".join("N" if x is None else str(x) for x in op[1:4]) + f":{op[4]}")
+                    if isinstance(r, dict):
+                        fexp.append(f"[{r['len']};{pos[r['got']]}]")
+                    else:
+                        fexp.append(f"[{len(range(*slice(*op[1:4]).indices(case['n'])))};E]")
+                    continue
+                ftoks.append(":".join(str(x) for x in op))
+                fexp.append("E" if r == "E" else "[" + ",".join(str(pos[m]) if op[0] in ("g", "i") else str(m) for m in r) + "]")
+            if not ftoks:
+                ftoks, fexp = ["n"], [f"[{case['n']}]"]
+            out.append((f"gpopfront n={case['n']} ops={';'.join(ftoks)}", " ".join(fexp) + " / " + ",".join(str(pos[m]) for m in res["log"] if m < OTHER)))
+        return out
 
     def oracle(self, case, res):
         if "exc" in res:
@@ -319,6 +339,13 @@ class ChainSuite(Suite):
             keys = sorted({rng.randint(-total - 1, total) for _ in range(8)} | {0, -1, total - 1, total, -total})
             out.append({"class": f"m{m}", "lens": lens, "keys": keys, "via": rng.choice(["chain", "to_population", "to_population"]),
                         "map": rng.random() < (0.25 if not big else 0.5)})
+            # directories for the file matching of Populations.from_swc: 1-3 roots over a small pool of (nested) names
+            pool = ["a.swc", "b.swc", "c.swc", "d.swc", "sub/e.swc", "sub/deep/f.swc", "g.swc"]
+            k = rng.choice([1, 2, 2, 3])
+            dirs = [[nm for nm in pool if rng.random() < 0.6] for _ in range(k)]
+            if rng.random() < 0.3:
+                dirs = [list(dirs[0]) for _ in range(k)]
+            out[-1]["match"] = {"dirs": dirs, "intersect": rng.random() < 0.6, "check_same": rng.random() < 0.6}
         # members of tens to hundreds of files (the chained view holds more trees than any one member, and more than a small bounded store)
         for k in range(8 if big else 2):
             m = rng.choice([2, 3, 4])
@@ -419,6 +446,23 @@ class ChainSuite(Suite):
                 res["check_same_ok"] = [[os.path.relpath(t.source, rt).replace(os.sep, "/") for t, rt in zip(pq[i], (os.path.join(same, "q1"), os.path.join(same, "q2")))]
                                         for i in range(len(pq))]
                 res["n_pops"] = [pq.num_of_populations(), len([row for row in pq])]
+                if "match" in case:
+                    mt = case["match"]
+                    mroots = [os.path.join(tmp, "match", f"m{k}") for k in range(len(mt["dirs"]))]
+                    for rt, names_ in zip(mroots, mt["dirs"]):
+                        write_dir(rt, names_)
+                    found = [[os.path.normpath(nm).replace(os.sep, "/") for nm in Population.find_swcs(rt, relpath=True)] for rt in mroots]
+                    with ReadLog() as rl2:
+                        try:
+                            pm = Populations.from_swc(mroots, intersect=mt["intersect"], check_same=mt["check_same"])
+                            built = len(rl2.log)
+                            rows_ = [[os.path.relpath(t.source, rt).replace(os.sep, "/") for t, rt in zip(pm[i], mroots)] for i in range(len(pm))]
+                            res["match"] = {"found": found, "len": len(pm), "rows": rows_, "built": built, "read": len(rl2.log),
+                                            "dup": len(set(rl2.log)) != len(rl2.log)}
+                        except AssertionError:
+                            res["match"] = {"found": found, "rows": "refused"}
+                        except ValueError as e:          # min() of no population / reduce of no list
+                            res["match"] = {"found": found, "rows": "refused", "why": str(e)[:40]}
             return res
         finally:
             shutil.rmtree(tmp, ignore_errors=True)
@@ -433,7 +477,22 @@ class ChainSuite(Suite):
                 where[m] = f"{mi}:{j}"
         exp = f"{res['len']} " + " ".join("E" if g == "E" else where[g] for g in res["gets"])
         a = f"lens={gen.ints(case['lens'])} keys={gen.ints(case['keys'])}"
-        return [("chain " + a, exp), ("gchain " + a, exp)]
+        out = [("chain " + a, exp), ("gchain " + a, exp)]
+        if case["via"] == "to_population":
+            out.append(("gtopop " + a, exp))          # Populations.__init__ / to_population / Population.__init__ / __len__ / __getitem__ as generated
+        m = res.get("match")
+        if m is not None:
+            # the file matching of Populations.from_swc as generated: rows compared as a set (the order of a Python set is unspecified)
+            num = {nm: k + 1 for k, nm in enumerate(sorted({nm for d in m["found"] for nm in d}))}
+            line = (f"gfromswc dirs={';'.join(gen.ints([num[nm] for nm in d]) for d in m['found'])} intersect={int(case['match']['intersect'])} "
+                    f"check={int(case['match']['check_same'])}")
+            if m["rows"] == "refused":
+                out.append((line, "E"))
+            else:
+                rows = sorted(m["rows"], key=lambda r: num[r[0]])
+                out.append((line, f"{m['len']} " + " ".join(",".join(f"{k}:{num[nm]}" for k, nm in enumerate(r)) for r in rows)
+                            + f" / built={m['built']} read={m['read']}"))
+        return out
 
     def oracle(self, case, res):
         if "exc" in res:
@@ -488,6 +547,23 @@ class ChainSuite(Suite):
         ok = res.get("check_same_ok")
         if ok is not None and (len(ok) != 3 or any(len(set(r)) != 1 for r in ok) or res.get("n_pops") != [2, 3]):
             out.append(("populations-rows", f"Populations.from_swc(check_same=True) on identical directories: rows {ok}, populations / rows iterated {res.get('n_pops')}"))
+        mres = res.get("match")
+        if mres is not None and "match" in case:
+            mt = case["match"]
+            sets = [set(d) for d in mres["found"]]
+            if mres["rows"] == "refused":
+                if mt["intersect"] or not mt["check_same"] or all(d == mres["found"][0] for d in mres["found"]):
+                    out.append(("populations-rows/refused", f"Populations.from_swc refused {mres['found']} (intersect={mt['intersect']}, check_same={mt['check_same']})"))
+            else:
+                rows_ = mres["rows"]
+                if mt["intersect"] or mt["check_same"]:
+                    if any(len(set(r)) != 1 for r in rows_):
+                        out.append(("populations-rows", f"a row of differently named files: {[r for r in rows_ if len(set(r)) != 1][0]} (directories {mres['found']})"))
+                if mt["intersect"] and sorted(r[0] for r in rows_) != sorted(set.intersection(*sets)):
+                    out.append(("populations-rows", f"rows {sorted(r[0] for r in rows_)}, the names present under every root are {sorted(set.intersection(*sets))}"))
+                if mres["len"] != len(rows_) or mres["built"] > len(sets) or mres.get("dup"):
+                    out.append(("populations-reads", f"Populations.from_swc read {mres['built']} files while building {len(sets)} populations; "
+                                                     f"{mres['read']} reads for {mres['len']} rows"))
         want = ["a.swc", "b.swc", "c.swc", "sub/deep/n2.swc", "sub/n1.swc"]
         if res["rows_len"] != len(want) or any(len(set(r)) != 1 for r in res["rows"]) or sorted(r[0] for r in res["rows"]) != want:
             out.append(("populations-rows", f"rows of Populations.from_swc (root spelling {res.get('root_style')}): {res['rows']}; the files present under both roots are {want}"))
